@@ -114,14 +114,22 @@ PROPS = {
         trusted_base=['file object contract seek/read', 'int(str) partial-function abstraction'],
     ),
     'C20': dict(
-        level='other',
-        contracts=[],
-        frames=['codec_lemma'],
-        technique='complete per-code-point enumeration of html_escape / html.escape (every code point neutralised) + bounded run-time '
-                  'contract check of every framework error page (skeleton comparison, JSON validity); pyvc contracts on render pending',
-        explanation='Escaping functions decided by complete enumeration; data flow into the pages BOUNDED.',
-        level_text='Complete enumeration for the escaping functions; bounded contract check for the pages (never counted as proved).',
-        level_note='str.replace with a 1-character needle acts per character (sampled).',
+        level='proof',
+        contracts=['C20'],
+        frames=['codec_lemma', 'error_sites'],
+        technique='deductive: dataflow VCs from the real AST of error_render.render and Ombott.default_error_handler (the URL reaches '
+                  'the template context only as repr(html.escape(url)); debug-only fields are constants otherwise); complete per-code-point '
+                  'enumeration of html.escape / html_escape; per-site literal-body obligations over every framework HTTPError(...); bounded '
+                  'page-skeleton check as replay harness',
+        explanation='render formats every template line with url = repr(escape(url)), constants for exception/traceback unless debug, and '
+                    'the error object; default_error_handler passes request.url and the configured debug flag, or returns json.dumps of a '
+                    'dict with the JSON content type; the template uses only the five known fields; every framework HTTPError has a literal '
+                    'status/body; the last-resort page interpolates only html_escape results; both escaping functions neutralise every code point.',
+        level_text='Proof of the data flow for all URLs and error objects plus complete enumeration for the escaping functions; the '
+                   'composition relies on stated Python semantics of str.format and repr. End-to-end pages are additionally checked bounded.',
+        level_note='str.format does not re-scan substituted values; repr of a quote-free string adds only quotes and backslash escapes; '
+                   'str.replace acts per character (sampled). abort(code, text) is application data and is outside the statement.',
+        trusted_base=['str.format / repr semantics', 'site checks resolve names by spelling'],
     ),
     'C02': dict(
         level='proof',
